@@ -187,14 +187,30 @@ def check_history(ctx, ops):
     purge()
     model = Model()
     managers = {}
+    name_lists = {}  # hook id -> the list object given to install_import_hook
     blocks = []
     try:
         for i, op in enumerate(ops):
             kind = op[0]
+            force_list = False
+            if kind == "install-same":
+                # the caller re-uses the very list object it passed to an earlier install (whether or not that hook is still installed)
+                if not name_lists:
+                    continue
+                src = sorted(name_lists)[op[1] % len(name_lists)]
+                op = ["install", name_lists[src], op[2], op[3]]
+                kind = "install"
+                force_list = True
+                model.flags.add("names-list-object-reused")
             if kind == "install":
                 _, names, checker, style = op
                 cstr = None if checker == "none" else f"vf_spy.{checker}"
-                mgr = install_import_hook(names if len(names) > 1 or style == "list" else names[0], cstr)
+                if len(names) > 1 or style == "list" or force_list:
+                    arg = names if any(names is l for l in name_lists.values()) else list(names)
+                    name_lists[len(model.hooks)] = arg
+                else:
+                    arg = names[0]
+                mgr = install_import_hook(arg, cstr)
                 if style == "with":
                     mgr.__enter__()
                 hid = len(model.hooks)
@@ -269,6 +285,7 @@ op_st = st.one_of(
     st.tuples(st.just("import"), st.sampled_from(MODULES)),
     st.tuples(st.just("import"), st.sampled_from(MODULES)),
     st.tuples(st.just("uninstall"), st.integers(0, 5)),
+    st.tuples(st.just("install-same"), st.integers(0, 3), st.sampled_from(["a", "b", "none"]), st.sampled_from(["list", "with", "handle"])),
     st.tuples(st.just("lazy")),
     st.tuples(st.just("pytest"), names_st, st.sampled_from(["a", "b"]), st.booleans()),
 )
